@@ -204,10 +204,15 @@ class Ctx:
     def step(self, fn, *a, **kw):
         """run one rule; a rule that finds its anchor gone / shape unrecognisable
         is recorded as broken and the other rules still run"""
+        from .rcu import Unresolved
         try:
             return fn(*a, **kw)
         except Broken as e:
             self.broken_msgs.append(str(e))
+            return None
+        except Unresolved as e:
+            if str(e) not in self.broken_msgs:
+                self.broken_msgs.append(str(e))
             return None
 
     def note(self, msg):
